@@ -407,6 +407,13 @@ KfJsonIntF64(ev) == JsonTextWhatM(ev, TRUE) = ""
 (* written correctly.  Identified by the schema shape (driver flag ree_nested).                                  *)
 KfAvroReeNested(ev) == ev.wout = "ok" /\ ev.ree_nested
 
+(* C17-json-dict-null-value-written: the JSON writer's DictionaryEncoder only knows the KEY validity; a row     *)
+(* whose (valid) key selects a null dictionary VALUE is written as that slot's physical content ("" / 0) instead *)
+(* of null.  Identified by: a dictionary with a null among its values somewhere in the batch (driver flag), the   *)
+(* text read back without error and with the right number of rows.                                              *)
+KfJsonDictNull(ev) == ev.wout = "ok" /\ ev.dict_null_values /\ ev.outcome = "ok" /\ Len(ev.rows_out) = Len(ev.rows_in)
+                      /\ ev.schema_out = ev.schema_in
+
 KF(ev, what) ==
   IF ev.op = "json_text" /\ what \in {"json values", "json reader rejects RFC 8259", "json int out of range read"} /\ KfJsonIntF64(ev)
   THEN "C17-json-int-via-f64-inexact"
@@ -419,6 +426,7 @@ KF(ev, what) ==
   ELSE IF ev.op = "json_text" /\ what = "json reader rejects RFC 8259" /\ KfJsonNumberAtEof(ev) THEN "C17-json-number-at-eof"
   ELSE IF ev.op = "json_text" /\ what = "json values" /\ KfJsonPairs(ev) THEN "C17-json-surrogate-pair-or"
   ELSE IF ev.op = "json_rt" /\ what = "json round trip" /\ KfJsonDuration(ev) THEN "C17-json-duration-iso-not-readable"
+  ELSE IF ev.op = "json_rt" /\ what = "json round trip" /\ KfJsonDictNull(ev) THEN "C17-json-dict-null-value-written"
   ELSE ""
 
 Init == l = 1
